@@ -286,6 +286,10 @@ impl World {
                 if exp && (st == 3 || st == 5) {
                     self.windows.push(format!("expiry-while-{}:in-poll-window", if st == 3 { "tx" } else { "rx" }));
                 }
+                if exp && st == 6 {
+                    // the response arrived between the poll's CAS and its timeout handling
+                    self.windows.push("expiry-after-rxdone:in-poll-window".to_string());
+                }
             }
             _ => {}
         }
